@@ -57,6 +57,19 @@ def use(p, x):
 def shared_s(x):
     return use(prep(), x)
 
+SEEN = []
+
+@xn(debug=True, resource=M)
+def probe(v):
+    SEEN.append(v)
+    return v
+
+@dag
+def shared_d(x):
+    a = inc(x)
+    probe(a)
+    return a
+
 @xn(resource=Resource.thread)
 def p_inc(x):
     return x + 1
@@ -172,6 +185,13 @@ def do_op(op: tuple, out: list) -> None:
             loc = dict(ns)
             exec(compile(BUILD_SRC[kind], f"<c16-{kind}>", "exec"), loc)  # noqa: S102
             out.append(("built", loc[DAG_NAME[kind]]))
+        elif kind == "setup_sp":
+            FRESH["shared_sp"].setup()
+            out.append(("ok", "setup done"))
+        elif kind == "call_d":
+            n0 = ns["SEEN"].count(op[1] + 1)  # (every call of a scenario has its own argument: count the probes of THIS call)
+            v = ns["shared_d"](op[1])
+            out.append(("ok", repr(v), "debug nodes run: %d" % (ns["SEEN"].count(op[1] + 1) - n0)))
         elif kind == "call_bad":
             out.append(("ok", repr(ns["shared"](op[1], op[1]))))  # too many positional arguments: the documented TypeError
         elif kind == "call_f":
@@ -237,10 +257,23 @@ SCENARIOS["pooled_call||pooled_call"] = [[("call_p", 1)], [("call_p", 5)]]
 SCENARIOS["pooled_call||build"] = [[("call_p", 1)], [("build",)]]
 # a call that is refused (too many arguments) in one thread, then calls in both threads: nothing stays locked behind the refusal
 SCENARIOS["refused_call_then_call||call"] = [[("call_bad", 1), ("call", 3)], [("call", 2), ("call_p", 2)]]
+# RUN_DEBUG_NODES is on: a setup() that takes its time in one thread, a call of a DAG with a debug node in the other, then calls in both
+SCENARIOS["slow_setup||debug_call"] = [[("setup_sp",), ("call_d", 1)], [("call_d", 2), ("call_d", 3)]]
+SCENARIOS["slow_setup||slow_setup"] = [[("setup_sp",), ("call_d", 1)], [("setup_sp",), ("call_d", 2)]]
+DEBUG_ON = {"slow_setup||debug_call", "slow_setup||slow_setup"}
 FRESH_SRC = '''
 @dag
 def shared_f(x):
     return use(prep(), x)
+
+@xn(setup=True, resource=M)
+def slow_prep():
+    T.pause()  # a setup node that takes its time: other threads run meanwhile
+    return 7
+
+@dag
+def shared_sp(x):
+    return add(x, slow_prep())
 '''
 FRESH: Dict[str, Any] = {}  # DAG objects rebuilt before every execution of a scenario (their setup node has never run)
 SCENARIOS["first_call||first_call"] = [[("call_f", 1)], [("call_f", 2)]]  # both calls find the setup node still to be executed
@@ -271,10 +304,11 @@ def run_scenario(ops: List[List[tuple]], prefix, line_mode: bool, rv: int = 0, p
     outs: List[list] = [[] for _ in ops]
     if pre_setup:
         lib()["shared_s"].setup()
-    if any(op[0] == "call_f" for th in ops for op in th):
+    if any(op[0] in ("call_f", "setup_sp") for th in ops for op in th):
         loc = dict(lib())
         exec(compile(FRESH_SRC, "<c16-fresh>", "exec"), loc)  # noqa: S102
         FRESH["shared_f"] = loc["shared_f"]
+        FRESH["shared_sp"] = loc["shared_sp"]
 
     def body(i):
         def f():
@@ -347,13 +381,16 @@ def run_case(acc, c, only_prefix=None):
     ops = SCENARIOS[c["scenario"]]
     old = cfg.TAWAZI_EXECNODE_OUTSIDE_DAG_BEHAVIOR
     cfg.TAWAZI_EXECNODE_OUTSIDE_DAG_BEHAVIOR = XNOutsideDAGCall(c["behaviour"])
+    debug_on = c["scenario"] in DEBUG_ON
     acc.cases += 1
     sc = StateCounter()
     try:
-        want = [[baseline(op, c["behaviour"]) for op in th] for th in ops]
+        cfg.RUN_DEBUG_NODES = debug_on
+        want = [[baseline(op, c["behaviour"] + ("+debug" if debug_on else "")) for op in th] for th in ops]
         line = c["mode"] == "line"
 
         def run_one(prefix):
+            cfg.RUN_DEBUG_NODES = debug_on  # (set before EVERY execution: a tree that leaves the flag changed must not hide it)
             return run_scenario(ops, prefix, line, RENDEZVOUS.get(c["scenario"], 0), c["scenario"] in PRE_SETUP)
 
         outcomes = set()
@@ -398,6 +435,7 @@ def run_case(acc, c, only_prefix=None):
             acc.sample({"case": c, "ops": ops, "alone": [[short(w) for w in th] for th in want]})
     finally:
         cfg.TAWAZI_EXECNODE_OUTSIDE_DAG_BEHAVIOR = old
+        cfg.RUN_DEBUG_NODES = False
 
 
 def short(o):
